@@ -174,7 +174,12 @@ func verifyRoot(ld *Loaded, sf *SpecFile, fn *ssa.Function, fs *FuncSpec, prop s
 		}
 		for _, s := range fs.Sites {
 			if e.siteHits[s] == 0 {
-				e.errf("site clause %s (at %s %s) matched no site in %s", s.Clause.Label, s.Kind, s.Callee, fs.Key)
+				if s.SetGhost != "" {
+					// a ghost assignment whose site disappeared leaves the ghost arbitrary: clauses that rely on it then fail on their own
+					e.note("ghost assignment %s (at %s %s) matched no site in %s: the ghost variable stays arbitrary", s.Clause.Label, s.Kind, s.Callee, fs.Key)
+				} else {
+					e.errf("site clause %s (at %s %s) matched no site in %s", s.Clause.Label, s.Kind, s.Callee, fs.Key)
+				}
 			}
 		}
 	}
@@ -354,6 +359,32 @@ func runAll(ld *Loaded, sf *SpecFile, opt *Options, only string) []*FuncResult {
 		}(i, j)
 	}
 	wg.Wait()
+	// Obligations left undecided (unknown / timeout, not sat) are tried once more with the machine to themselves and
+	// three times the per-query budget: a loaded machine must not turn into an alarm.
+	retried := 0
+	for _, fr := range results {
+		if fr == nil || fr.Script == nil || len(fr.Errs) > 0 || retried >= 8 {
+			continue
+		}
+		var again []*Obl
+		undecided := false
+		for _, o := range fr.Obls {
+			if o.Check && !o.IsCover {
+				again = append(again, o)
+				if o.Result != "unsat" && o.Result != "sat" {
+					undecided = true
+				}
+			}
+		}
+		if !undecided {
+			continue
+		}
+		retried++
+		runs := solveScript(smtDir, fr.Key+"_retry", fr.Script, opt.perQuery*3, time.Duration(opt.perQuery*3)*time.Millisecond*time.Duration(len(again)+5)+60*time.Second, opt.solvers, again)
+		fr.Runs = append(fr.Runs, runs...)
+		fr.Disagree = combine(fr.Obls, fr.Runs)
+		fr.Notes = append(fr.Notes, "undecided obligations were retried alone with a threefold time budget")
+	}
 	if !opt.keepSMT {
 		os.RemoveAll(smtDir)
 	} else {
@@ -473,6 +504,40 @@ func main() {
 		for _, k := range sortedKeys(sf.Funcs) {
 			_, ok := ld.funcs[k]
 			fmt.Printf("%-50s found=%v props=%v\n", k, ok, allProps(sf.Funcs[k]))
+		}
+	case "mods":
+		// debugging aid: the static write set of a function and of each of its direct callees
+		ld, sf := mustLoad(opt)
+		e := NewEng(ld, sf)
+		fn := ld.funcs[pos[0]]
+		if fn == nil {
+			fmt.Fprintln(os.Stderr, "no such function")
+			os.Exit(2)
+		}
+		show := func(f *ssa.Function) {
+			m := e.modSet(f)
+			var parts []string
+			for _, r := range sortedKeys(m) {
+				if g := e.modGeneral[f]; g != nil && g[r] {
+					parts = append(parts, r)
+				} else {
+					parts = append(parts, r+"(fresh)")
+				}
+			}
+			fmt.Printf("%s: %s\n", fnKey(f), strings.Join(parts, " "))
+		}
+		show(fn)
+		seen := map[*ssa.Function]bool{}
+		for _, b := range fn.Blocks {
+			for _, ins := range b.Instrs {
+				if c, ok := ins.(ssa.CallInstruction); ok {
+					if f := c.Common().StaticCallee(); f != nil && len(f.Blocks) > 0 && !seen[f] {
+						seen[f] = true
+						fmt.Print("  ")
+						show(f)
+					}
+				}
+			}
 		}
 	case "funcs":
 		ld, _ := mustLoad(opt)
@@ -633,7 +698,21 @@ func checkProperty(opt *Options, start time.Time) int {
 				} else if o.Result == "unknown" || o.Result == "timeout" {
 					coversUnk++
 				} else if o.Result == "unsat" {
-					errors = append(errors, "vacuity: "+o.Name+" is unreachable (contradictory precondition / antecedent)")
+					if i := strings.Index(o.Name, "/cover/after/"); i >= 0 {
+						// a dead block stays dead; only reachable-before, unreachable-after is a contradiction
+						sib := o.Name[:i] + "/cover/reach/" + o.Name[i+len("/cover/after/"):]
+						dead := false
+						for _, o2 := range r.Obls {
+							if o2.Name == sib && o2.Result == "unsat" {
+								dead = true
+							}
+						}
+						if !dead {
+							errors = append(errors, "vacuity: the contract assumed at "+o.Name+" contradicts what is known at the call")
+						}
+					} else if !strings.Contains(o.Name, "/cover/reach/") {
+						errors = append(errors, "vacuity: "+o.Name+" is unreachable (contradictory precondition / antecedent)")
+					}
 				}
 				continue
 			}
